@@ -747,6 +747,15 @@ pub fn generate(seed: u64, tier: Tier, p: &Profile) -> Scenario {
         let min_coin = g.r.chance(1, 4) || (boundary && g.r.chance(2, 3));
         let coin = if min_coin { 0 } else { g.min_ada(extra) + if g.r.chance(1, 2) { g.amount() % 100_000_000 } else { 0 } };
         let addr = if g.r.chance(1, 8) { AddrSpec::Ent(Cred::Script(*g.r.pick(&g.plutus_ids.clone()))) } else { g.key_addr() };
+        // one requested output in twelve carries a little less than it needs at its own size (refused, F4)
+        let coin = if !min_coin && g.r.chance(1, 12) {
+            let size = probe_output_size(&g.w, &OutSpec { addr: addr.clone(), coin: 1 << 20, assets: assets.clone(), datum: datum.clone(), script_ref, min_coin: false, form: 0 });
+            let need_exact = g.k.cpb * (160 + size);
+            let span = g.k.cpb * *g.r.pick(&[1u64, 8, 40, 400]) + 1;
+            need_exact.saturating_sub(1 + g.r.below(span)).max(1)
+        } else {
+            coin
+        };
         plan.need += if min_coin { g.min_ada(extra) as u128 } else { coin as u128 };
         let form = if pm(&mut g.r, p.decoded_outputs) { 1 + g.r.below(3) as u8 } else { 0 };
         // an output with an inline datum at exactly its minimum ADA, and then "the same" output whose datum arrives in
@@ -786,6 +795,15 @@ pub fn generate(seed: u64, tier: Tier, p: &Profile) -> Scenario {
                 CertSpec::StakeDereg(_) => plan.have += g.k.key_deposit as u128,
                 CertSpec::StakeDeregCoin(_, d) | CertSpec::DRepDereg(_, d) => plan.have += *d as u128,
                 _ => {}
+            }
+            if let CertSpec::PoolRetire(op_key, _) = &c {
+                if g.r.chance(1, 2) {
+                    // the retirement is called off in the same transaction: the pool registers again afterwards
+                    // (every registration in a body is charged as a first one, says the property)
+                    let reg = CertSpec::PoolReg { operator: *op_key, owners: vec![*op_key], reward: Cred::Key(g.kid()), pledge: g.amount(), cost: 340_000_000 + g.r.below(64), relays: g.r.below(3) as u8, meta: g.r.chance(1, 2) };
+                    plan.need += g.k.pool_deposit as u128;
+                    plan.pre_tail.push(Op::Cert(reg, None));
+                }
             }
             if wit.is_none() && g.r.chance(1, 8) {
                 // the same certificate handed over a second time (refused, or - for a set - held once)
@@ -882,6 +900,13 @@ pub fn generate(seed: u64, tier: Tier, p: &Profile) -> Scenario {
     }
     // ---- mint / burn
     let mut burn_assets: Vec<AssetQ> = vec![];
+    if pm(&mut g.r, p.mint) && g.r.chance(1, 6) {
+        // a mistaken call: a mint of nothing under a policy that is never minted in this transaction (refused, F4:
+        // no trace of the policy may reach the body or the witness set)
+        let s = *g.r.pick(&g.native_ids.clone());
+        let wit = Wit { script: s, how: ScriptUse::Witness, datum: DatumUse::None, red: 0, mem: 0, steps: 0, signers: None };
+        plan.pre.push(Op::Mint { wit, name: b"nothing".to_vec(), qty: 0, set: g.r.chance(1, 2) });
+    }
     if pm(&mut g.r, p.mint) {
         let n = 1 + g.r.below(3);
         for _ in 0..n {
@@ -1009,6 +1034,13 @@ pub fn generate(seed: u64, tier: Tier, p: &Profile) -> Scenario {
                 plan.need += deposit as u128;
                 plan.pre.push(Op::Propose(ProposalSpec { deposit, reward: reward.clone(), action: action.clone(), mirror: 1 + g.r.below(2) as u8 }, None));
             }
+            if let ActionSpec::UpdateCommittee { prev, remove, add, q } = &action {
+                if g.r.chance(1, 3) {
+                    // the same proposal with its quorum spelled another way (4/6 for 2/3): another proposal on the wire
+                    plan.need += deposit as u128;
+                    plan.pre.push(Op::Propose(ProposalSpec { deposit, reward: reward.clone(), action: ActionSpec::UpdateCommittee { prev: *prev, remove: remove.clone(), add: add.clone(), q: (q.0 * 2, q.1 * 2) }, mirror: 0 }, None));
+                }
+            }
             if wit.is_some() && g.r.chance(1, 4) {
                 // a mistaken attempt: the proposal names a guardrails script and is handed to the plain entry point
                 // (refused, F4: nothing of it may stay behind - not in the body, not in the deposit the builder charges)
@@ -1082,7 +1114,8 @@ pub fn generate(seed: u64, tier: Tier, p: &Profile) -> Scenario {
             plan.pre.push(Op::Start(g.amount()));
         }
         if g.r.chance(1, 3) {
-            let d = g.amount() % 50_000_000;
+            // (the smallest legal donations and the CBOR width edges next to ordinary amounts)
+            let d = if g.r.chance(1, 4) { *g.r.pick(&[1u64, 2, 23, 24, 255, 256, 65535, 65536]) } else { g.amount() % 50_000_000 };
             plan.need += d as u128;
             plan.pre.push(Op::Donation(d));
         }
@@ -1417,6 +1450,10 @@ pub fn generate(seed: u64, tier: Tier, p: &Profile) -> Scenario {
             pre.push(Op::PresetScriptDataHash);
         } else {
             pre.push(Op::ScriptDataHash(7));
+            if g.r.chance(1, 3) {
+                // one more witness datum after the hash was calculated (it is calculated again after the balancing)
+                pre.push(Op::ExtraDatum(g.r.below(g.w.datums.len() as u64) as u16));
+            }
         }
     }
     // collateral before or after the other preparation
